@@ -19,6 +19,8 @@ import (
 )
 
 // If the target program panics, the interpreter panics with this type.
+type sliceData struct{ s []value }
+
 type targetPanic struct {
 	v value
 }
@@ -1134,6 +1136,22 @@ func callBuiltin(caller *frame, callpos token.Pos, fn *ssa.Builtin, args []value
 
 	case "ssa:deferstack":
 		return &caller.defers
+
+	case "SliceData":
+		// unsafe.SliceData(s): modelled as a handle on the slice itself (only unsafe.String consumes it)
+		return sliceData{args[0].([]value)}
+
+	case "String":
+		// unsafe.String(ptr, n)
+		sd, ok := args[0].(sliceData)
+		if !ok {
+			panic("unsafe.String of a pointer not obtained from unsafe.SliceData")
+		}
+		n := int(asInt64(args[1]))
+		return normStr(symstr(append([]value{}, sd.s[:n]...)))
+
+	case "StringData":
+		return sliceData{[]value(toSymStr(args[0]))}
 	}
 
 	panic("unknown built-in: " + fn.Name())
